@@ -7,7 +7,7 @@ use samlang_heap::{Heap, ModuleReference};
 use std::collections::{BTreeMap, HashMap};
 
 const NAMES: [&str; 4] = ["A", "B", "C", "D"];
-const TEXTS: [&str; 6] = [
+const TEXTS: [&str; 8] = [
   "class FooConfigurationRecord(val x: int) { function makeTheDefaultConfiguration(): FooConfigurationRecord = FooConfigurationRecord.init(1) }",
   "import { FooConfigurationRecord } from A\nclass UseOfModuleAlphaRecord { function f(): FooConfigurationRecord = FooConfigurationRecord.makeTheDefaultConfiguration() }",
   "import { FooConfigurationRecord } from C\nclass UseOfModuleGammaRecord { function f(): FooConfigurationRecord = FooConfigurationRecord.makeTheDefaultConfiguration() }",
@@ -15,6 +15,10 @@ const TEXTS: [&str; 6] = [
   "import { UseOfModuleAlphaRecord } from B\nclass ChainOfDependenciesRecord { function g(): int = UseOfModuleAlphaRecord.f().x }",
   // a type error and a syntax error in one module
   "class Test {\n  function f(): int = \"one\"\n  function g(): int =\n}\n",
+  // names longer than 15 bytes (kept in the collected heap) that occur only in the parameters of members and do not resolve:
+  // the stored diagnostics must still be printable after the string GC that ends the recheck
+  "class ParameterAnnotationsOnly { function f(theOnlyParameterOfThisFunction: NotDefinedVeryLongNameHere): int = 1 }",
+  "interface ParameterAnnotationsOnly { method m(theOnlyParameterOfThisMethod: AnotherUndefinedVeryLongName): int }",
 ];
 
 #[derive(Clone, Copy, Debug)]
